@@ -10,6 +10,11 @@ CHECKS = {
   text="Every expression of four slice grammars (control/short-circuit with logging calls, scalar operators, access/nil-safe/calls/literals, the seven closure builtins nested) up to a node budget is compiled in 8 modes (struct, *struct, map, no Env x optimize on/off) and run on the full product of the small value domains of the members it mentions; result, failure and the call log (exactly-once, left-to-right, only-needed) must equal a tree-walking reference evaluator written from the language definition. Unit tests fix one environment and ~150 expressions; this covers every nesting of jumps, scopes and operand orders inside the bound. A watchdog turns non-terminating or memory-exploding runs into reported violations.",
   note="Trusted: the reference evaluator mc/ref (boring, ~500 lines) and the harness environment; bounded by node budget and value domains (no random extension).",
   ref="DESIGN.md section 4 C01"),
+ "C02": dict(
+  technique="small-scope exhaustive enumeration of every rewrite-firing context x operand static types x environment values, differential oracle Optimize(true) vs Optimize(false) and ConstExpr marked vs unmarked on the real Compile/Run",
+  text="Every expression (to a node budget) of an alphabet in which each optimizer rewrite can fire - constant arithmetic at any depth, literal arrays, in/not in over literal arrays and ranges with left operands of every static type (int kinds, floats, strings, nil, dynamic), constant ranges, const-expr calls with literal/folded/nested arguments - placed under calls with sized/float/interface parameters, conditionals and closures, is compiled optimized and unoptimized in struct/map/no-env modes and run on every value: both fail or both return equal values; the optimizer may reject only a constant integer division by zero; a ConstExpr mark may only move that call's failure to compile time.",
+  note="Trusted: result normal form (kind-exact numbers, element-wise sequences); no expected values are needed. Bounded by node budget and value domains.",
+  ref="DESIGN.md section 4 C02"),
  "C06": dict(
   technique="exhaustive enumeration of allocating expressions x run-time bounds x budgets 1..12 on the real VM, oracle = reference allocation count (succeeds iff need < budget), plus a boundary family at the default budget",
   text="All expressions of the allocating slice (array/map literals with non-constant elements, run-time ranges ascending/equal/descending, map/filter results, nestings, intermediate collections) up to a node budget, for every value of the bounds and every budget 1..12 (barrier between budgets since vm.MemoryBudget is global), optimized/unoptimized/no-env: the run must succeed exactly when the reference evaluator's allocation count is below the budget. The existing test has one expression and one budget.",
@@ -20,6 +25,11 @@ CHECKS = {
   text="All ordered pairs of the 12 numeric kinds, all arithmetic/comparison operators, unary minus and **, on the full product of a per-kind boundary grid (0, +-1, extrema, truncating and sign-changing bit patterns, floats not representable in float32), typed and untyped: result kind and bits must equal the promotion model (convert lower-ranked operand, wrap to result width, truncating division, division by zero fails) and the kind must be the one checker.Check predicts. One transposed conversion among ~1500 generated cases is caught; TestExpr samples a handful.",
   note="Trusted: the arithmetic model mc/ref/num.go; rank list as in DESIGN; values outside the grid are not explored.",
   ref="DESIGN.md section 4 C14"),
+ "C15": dict(
+  technique="small-scope exhaustive enumeration of expressions x values, differential oracle across {Eval, Compile without Env, Env(struct), Env(*struct), Env(map), Env(map)+AllowUndefinedVariables, Optimize(false)} on the real library",
+  text="Every expression of the C01 slices plus a slice with named numeric/string types, sized kinds, dynamic members, retyped literals, fast calls and nested builtins over collections of different element types is evaluated by every variant; all variants that succeed must return equal results and call logs. This pins every place where a static type selects a specialised opcode or rewrite (OpEqualInt/OpEqualString, OpFetchMap, OpCallFast, literal retyping, type-guarded optimizations).",
+  note="Trusted: result normal form; only successes are compared, as the property states.",
+  ref="DESIGN.md section 4 C15"),
  "C07": dict(
   technique="explicit-state BFS over run histories on one VM value with the real (*VM).Run as transition function, to a fixpoint of the reachable VM-state set",
   text="Every history over an alphabet of 13 run/configuration operations (trivial, allocating, failing at the first instruction, failing inside nested loops with open scopes, budget exhaustion, longer/shorter programs, map-env after struct-env, panicking call, MemoryBudget changes) is explored breadth-first on one vm.VM value; states are de-duplicated on the hash of ALL VM fields, and the search runs until no new state appears (closed state space) or the depth bound. Every run is compared with a fresh VM. This is exhaustive for the alphabet, which unit tests (that never reuse a VM) cannot be.",
